@@ -79,6 +79,11 @@ def gen(chk):
            "01", "1e-8", "1e3", "1e10", "0e0", "1,2", "", " 1", "1 ", "abc", "9999999999", "99999999999", "0.12345678", "0.123456789", "1.5e1", "1E2"]
     for a in ams:
         add(a + ":" + h0); add(a + "," + a + ":" + h0); add(a + "," + h0); add(a)
+    # fewer / as many / more amounts than inputs (the list is padded with zeros to the number of inputs)
+    for nin_ in (1, 2, 3, 5):
+        tx_ = T.make_tx(2, [(bytes([i]) * 32, i, b"", 0xffffffff) for i in range(nin_)], [(1, b"\x51")], 0).hex()
+        for k in range(0, nin_ + 2):
+            add(",".join(["0.%d" % (j + 1) for j in range(k)]) + (":" if k else "") + tx_)
     for _ in range(1500 if chk.tier == "quick" else 20000):
         ip = rng.choice(["0", "1", "9", "10", str(rng.randrange(10 ** rng.randrange(1, 21))), "00", "1" + "0" * rng.randrange(0, 19)])
         s = rng.choice(["", "-", ""]) + ip
